@@ -1,5 +1,5 @@
 """which contract modules exist, and per property: claimed level, assumptions, bounded stand-ins"""
-MODULES = ['contracts.c19_boxes', 'contracts.c01_membership', 'contracts.c04_bbox', 'contracts.c15_motions', 'contracts.c02_masks', 'contracts.c17_validation', 'contracts.c16_values', 'contracts.c20_pixcoord', 'contracts.c06_sky', 'contracts.c07_wcs', 'contracts.c08_algebra', 'contracts.c05_mask_apply', 'contracts.c18_artists']
+MODULES = ['contracts.c19_boxes', 'contracts.c01_membership', 'contracts.c04_bbox', 'contracts.c15_motions', 'contracts.c02_masks', 'contracts.c17_validation', 'contracts.c16_values', 'contracts.c20_pixcoord', 'contracts.c06_sky', 'contracts.c07_wcs', 'contracts.c08_algebra', 'contracts.c05_mask_apply', 'contracts.c18_artists', 'contracts.c09_ds9', 'contracts.c10_ds9_lexers']
 
 A_PY = 'A-PY: CPython semantics of the modelled subset (ints exact, dict/list/str methods, left-to-right evaluation)'
 A_REAL = 'A-REAL: floats are treated as real numbers (no rounding, no overflow)'
@@ -63,4 +63,10 @@ PROPERTIES = {
     'C18': dict(level='proof', trusted=[A_PY, A_REAL, A_TRIG, A_NUMPY, A_UNITS, 'A-MPL: documented geometry of matplotlib Circle/Ellipse/Rectangle(rotation about xy)/Polygon/Arrow/Line2D/Text/PathPatch constructors; a patch outline is an abstract polyline determined by the patch class and its geometric arguments (externals/mpl_*.py)'],
                 assumptions=[A_PY, A_REAL, A_TRIG, A_NUMPY, A_UNITS, 'Bezier approximation tolerance, fill rule and rendering are outside the proof',
                              'the artist is compared with the verified membership function (C01) boundary-agnostically; regular polygons share the polygon code path']),
+    'C09': dict(level='other', bounded=['ds9_roundtrip'], trusted=[A_PY, A_REAL, A_UNITS, 'A-FMT: format(v, ".Nf") renders v with N decimals using only digits, "." and "-", and float() of that text is within half a unit of the last decimal of v', 'SkyCoord.to_string / Angle.to_string / Quantity.to_string in decimal degrees as modelled in externals/'],
+                explanation='Structural layer proved (all parameters, every class/frame/precision/list shape in the contracts): the text written by the real serialiser equals the DS9 conventions (symbolic text = concrete strings + fixed-point renderings), lists keep each region\'s frame/shape/effective properties under hoisting, inexpressible regions are skipped without altering the rest, serialising is deterministic, and the real decoder applied to the written parameter tokens returns every quantity within half a unit. The text layer of the reader (line splitting, regular expressions, metadata lexing) is outside the verifier and is covered by the bounded native round trip only.',
+                assumptions=[A_PY, A_REAL, A_UNITS, 'metadata vocabulary: the representative entries in contracts/c09_ds9.py::VOCAB', 'ellipse axes are written as semi-axes, so a full axis is recovered within one unit (reading adopted in DESIGN section 6)']),
+    'C10': dict(level='other', bounded=['ds9_grammar'], trusted=[A_PY, A_REAL, A_UNITS, 'A-FMT (numbers written in positional decimal notation are parsed back exactly by float())', 'astropy Angle parsing of "<n>", "a:b:c", "XhYmZs", "XdYmZs" as modelled in externals/coordinates.py'],
+                explanation='Token lexers proved for all numeric values (pixel positions 1-based, pixel sizes unshifted, sky numbers in degrees, the suffix table, sexagesimal longitudes in hours for equatorial frames only, rejection of wrong-kind tokens) and the shape-parameter decoder proved through C09 (ellipse radii are semi-axes, last box/ellipse parameter is the angle). The line-level grammar (active frame until changed, unsupported frames/shapes skipped, separators, case, include sign and property, multi-radius annuli, text delimiters) is text processing with regular expressions, outside the verifier: it is checked by the bounded grammar-driven comparison against an independent generator only.',
+                assumptions=[A_PY, A_REAL, A_UNITS, 'global properties overriding an absent include sign (F23 in DESIGN) are not generated']),
 }
